@@ -425,6 +425,7 @@ encode(uint8_t *k) {
 		    rb->wpos, rb->iov_index, rb->iov_index_max, rb->flags, rb->size, J_ne);
 		return (1);
 	}
+	memset(k, 0, KEYSZ);
 	k[0] = (uint8_t)rb->wpos;
 	k[1] = (uint8_t)rb->iov_index;
 	k[2] = (uint8_t)rb->iov_index_max;
@@ -534,37 +535,34 @@ decode(const uint8_t *k, uint64_t W) {
 static uint8_t	*st_keys;
 static uint64_t	*st_W;
 static size_t	st_n, st_cap;
-static uint32_t	*ht;
+static uint64_t	*ht;		/* (hash & 0xffffffff00000000) | (id + 1); 0 = empty */
 static size_t	ht_size;	/* power of two */
+static size_t	KEYW;		/* key size in 64-bit words (keys are zero padded to KEYW * 8) */
 
 static uint64_t
 key_hash(const uint8_t *k) {
-	uint64_t h = 1469598103934665603ull;
+	uint64_t h = 0x9E3779B97F4A7C15ull, w;
 	size_t i;
-	for (i = 0; i < KEYSZ; i ++) {
-		h ^= k[i];
-		h *= 1099511628211ull;
+	for (i = 0; i < KEYW; i ++) {
+		memcpy(&w, k + 8 * i, 8);
+		h = (h ^ w) * 0xff51afd7ed558ccdull;
+		h ^= h >> 32;
 	}
+	h *= 0xc4ceb9fe1a85ec53ull;
 	return (h ^ (h >> 29));
-}
-
-static void
-ht_put(uint32_t id) {
-	size_t pos = (size_t)key_hash(st_keys + (size_t)id * KEYSZ) & (ht_size - 1);
-	while (0 != ht[pos])
-		pos = (pos + 1) & (ht_size - 1);
-	ht[pos] = id + 1;
 }
 
 /* Returns 1 and the new id when the key was not known. */
 static int
 store_insert(const uint8_t *k, uint64_t W, uint32_t parent, uint16_t op, uint32_t *id_ret) {
-	size_t pos, i;
+	size_t pos, i, p2;
+	uint64_t h = key_hash(k), tag = h & 0xffffffff00000000ull, h2;
 
-	pos = (size_t)key_hash(k) & (ht_size - 1);
+	pos = (size_t)h & (ht_size - 1);
 	while (0 != ht[pos]) {
-		if (0 == memcmp(st_keys + (size_t)(ht[pos] - 1) * KEYSZ, k, KEYSZ)) {
-			*id_ret = ht[pos] - 1;
+		if ((ht[pos] & 0xffffffff00000000ull) == tag &&
+		    0 == memcmp(st_keys + (size_t)((uint32_t)ht[pos] - 1) * KEYSZ, k, KEYSZ)) {
+			*id_ret = (uint32_t)ht[pos] - 1;
 			return (0);
 		}
 		pos = (pos + 1) & (ht_size - 1);
@@ -586,18 +584,22 @@ store_insert(const uint8_t *k, uint64_t W, uint32_t parent, uint16_t op, uint32_
 	st_op[st_n] = op;
 	*id_ret = (uint32_t)st_n;
 	st_n ++;
+	ht[pos] = tag | (uint64_t)st_n;	/* id + 1 */
 	if (st_n * 2 > ht_size) {
 		free(ht);
 		ht_size *= 4;
-		ht = (uint32_t *)calloc(ht_size, sizeof(uint32_t));
+		ht = (uint64_t *)calloc(ht_size, sizeof(uint64_t));
 		if (NULL == ht) {
 			fprintf(stderr, "out of memory\n");
 			exit(3);
 		}
-		for (i = 0; i < st_n; i ++)
-			ht_put((uint32_t)i);
-	} else {
-		ht[pos] = (uint32_t)st_n;	/* id + 1 */
+		for (i = 0; i < st_n; i ++) {
+			h2 = key_hash(st_keys + i * KEYSZ);
+			p2 = (size_t)h2 & (ht_size - 1);
+			while (0 != ht[p2])
+				p2 = (p2 + 1) & (ht_size - 1);
+			ht[p2] = (h2 & 0xffffffff00000000ull) | (uint64_t)(i + 1);
+		}
 	}
 	return (1);
 }
@@ -698,12 +700,31 @@ static wop_t	seed_wop;
 
 static void
 ring_new(void) {
+	size_t page = (size_t)sysconf(_SC_PAGE_SIZE);
+
 	rb = r_buf_alloc((uintptr_t)-1, J_size, J_min);
 	if (NULL == rb) {
 		fprintf(stderr, "r_buf_alloc failed\n");
 		exit(3);
 	}
 	rb_const = *rb;
+	/* The two areas are mmap'ed (invisible to ASan): poison what lies behind the storage and behind
+	 * the last table entry inside their pages, so that an overrun by the library is reported. */
+	if (rb->size < page)
+		VH_POISON(rb->buf + rb->size, page - rb->size);
+	if (sizeof(iovec_t) * rb->iov_count < rb->iov_size)
+		VH_POISON((uint8_t *)rb->iov + sizeof(iovec_t) * rb->iov_count, rb->iov_size - sizeof(iovec_t) * rb->iov_count);
+}
+
+static void
+ring_free(void) {
+	size_t page = (size_t)sysconf(_SC_PAGE_SIZE);
+
+	if (rb_const.size < page)
+		VH_UNPOISON(rb_const.buf + rb_const.size, page - rb_const.size);
+	VH_UNPOISON((uint8_t *)rb_const.iov, rb_const.iov_size);
+	*rb = rb_const;
+	r_buf_free(rb);
 }
 
 static int
@@ -945,7 +966,7 @@ crosscheck(uint32_t id) {
 	if (0 == rc && (0 != encode(key) || 0 != memcmp(key, st_keys + (size_t)id * KEYSZ, KEYSZ)))
 		rc = 1;
 	g_quiet = 0;
-	r_buf_free(rb);
+	ring_free();
 	rb = keep;
 	rb_const = keep_const;
 	return (rc);
@@ -970,7 +991,7 @@ run_bfs(void) {
 	st_parent = (uint32_t *)malloc(st_cap * sizeof(uint32_t));
 	st_op = (uint16_t *)malloc(st_cap * sizeof(uint16_t));
 	ht_size = 1 << 18;
-	ht = (uint32_t *)calloc(ht_size, sizeof(uint32_t));
+	ht = (uint64_t *)calloc(ht_size, sizeof(uint64_t));
 
 	ring_new();
 	rc = seed_build();
@@ -1132,6 +1153,8 @@ main(int argc, char **argv) {
 	if (J_ne > MAXNE)
 		return (3);
 	KEYSZ = K_HDR + 2 * J_ne + K_RD * (size_t)J_nr + 2 * J_size;
+	KEYW = (KEYSZ + 7) / 8;
+	KEYSZ = KEYW * 8;	/* zero padded */
 	if (NULL != trace)
 		return (run_trace(semi + 1));
 	build_wops();
